@@ -262,10 +262,13 @@ def _convert_timestamp_to_tz_unaware(val):
         arr = val
     else:
         arrow = to_arrow(val)
+        # nulls (NaT) cannot be represented without a copy
         if hasattr(arrow, "chunks"):
-            arr = pa.chunked_array([c.to_numpy() for c in arrow.chunks])
+            arr = pa.chunked_array(
+                [c.to_numpy(zero_copy_only=c.null_count == 0) for c in arrow.chunks]
+            )
         else:
-            arr = arrow.to_numpy()
+            arr = arrow.to_numpy(zero_copy_only=arrow.null_count == 0)
 
     return arr, orig_type
 
@@ -1040,7 +1043,17 @@ def _val_to_numpy(
         is_chunked = False
 
     if is_chunked:
-        val_list = [chunk.to_numpy() for chunk in arrow.chunks]
+        # nulls cannot be represented without a copy: they become NaN / NaT
+        has_nulls = arrow.null_count > 0
+        val_list = [
+            chunk.to_numpy(zero_copy_only=not has_nulls) for chunk in arrow.chunks
+        ]
+        if has_nulls and len(val_list) > 1:
+            # e.g. integer chunks turn into float only where they hold a null
+            common_type = np.result_type(*val_list)
+            val_list = [v.astype(common_type, copy=False) for v in val_list]
+    elif isinstance(val, pa.Array):
+        val_list = [val.to_numpy(zero_copy_only=val.null_count == 0)]
     elif hasattr(val, "to_numpy"):
         val_list = [val.to_numpy()]  # type: ignore
     else:
